@@ -44,30 +44,43 @@ def check_one(case, ctx, deep):
             lib.interfere(case)   # other contexts created and queried in between (DESIGN.md 10.2)
         context = ctx.call('Context()', plain, lib.context_of, case)
         lattice = ctx.call('context.lattice', plain, lambda: context.lattice)
-        members = list(lattice)
-        by_ext = {}
-        for c in members:
-            by_ext[maps.omask(c.extent)] = c
-        ctx.check(set(by_ext) == set(ref.index), 'concept-set', plain, 'lattice is not the concept set (see C03)')
-        for k, (ext, _) in enumerate(cs):
-            c = by_ext[ext]
-            for attr, exp in (('upper_neighbors', upper[k]), ('lower_neighbors', lower[k])):
-                got = [maps.omask(d.extent) for d in getattr(c, attr)]
-                want = {cs[j][0] for j in exp}
-                ctx.check(len(set(got)) == len(got), attr + '/repeat', plain,
-                          lambda: f'{attr} of extent {positions(ext)} repeats: {got}')
-                ctx.check(set(got) == want, attr, plain,
-                          lambda: f'{attr} of extent {positions(ext)}: got {sorted(map(positions, got))}'
-                                  f' want {sorted(map(positions, want))}')
-                for d in getattr(c, attr):
-                    ctx.check(any(d is x for x in members), attr + '/identity', plain,
-                              f'{attr} holds an object that is not a member of the lattice')
-            for d in c.upper_neighbors:
-                ctx.check(any(x is c for x in d.lower_neighbors), 'converse', plain,
-                          lambda: f'{positions(ext)} has upper neighbour {d.extent} which lacks it as lower neighbour')
-            for d in c.lower_neighbors:
-                ctx.check(any(x is c for x in d.upper_neighbors), 'converse', plain,
-                          lambda: f'{positions(ext)} has lower neighbour {d.extent} which lacks it as upper neighbour')
+        def check_links(lattice, tag):
+            members = list(lattice)
+            by_ext = {}
+            for c in members:
+                by_ext[maps.omask(c.extent)] = c
+            ctx.check(set(by_ext) == set(ref.index), tag + 'concept-set', plain, 'lattice is not the concept set (see C03)')
+            for k, (ext, _) in enumerate(cs):
+                c = by_ext[ext]
+                for attr, exp in (('upper_neighbors', upper[k]), ('lower_neighbors', lower[k])):
+                    got = [maps.omask(d.extent) for d in getattr(c, attr)]
+                    want = {cs[j][0] for j in exp}
+                    ctx.check(len(set(got)) == len(got), tag + attr + '/repeat', plain,
+                              lambda: f'{attr} of extent {positions(ext)} repeats: {got}')
+                    ctx.check(set(got) == want, tag + attr, plain,
+                              lambda: f'{tag}{attr} of extent {positions(ext)}: got {sorted(map(positions, got))}'
+                                      f' want {sorted(map(positions, want))}')
+                    for d in getattr(c, attr):
+                        ctx.check(any(d is x for x in members), tag + attr + '/identity', plain,
+                                  f'{attr} holds an object that is not a member of the lattice')
+                for d in c.upper_neighbors:
+                    ctx.check(any(x is c for x in d.lower_neighbors), tag + 'converse', plain,
+                              lambda: f'{positions(ext)} has upper neighbour {d.extent} which lacks it as lower neighbour')
+                for d in c.lower_neighbors:
+                    ctx.check(any(x is c for x in d.upper_neighbors), tag + 'converse', plain,
+                              lambda: f'{positions(ext)} has lower neighbour {d.extent} which lacks it as upper neighbour')
+
+        check_links(lattice, '')
+        if deep and rep_ == 0 and len(cs) <= 64:
+            # copies of the lattice made AFTER the caller took the serialised form and modified it in place
+            import copy
+            import pickle
+            import concepts
+            ctx.call('todict/wreck', plain, lambda: lib.wreck(context.todict()))
+            check_links(ctx.call('pickle(lattice)', plain, lambda: pickle.loads(pickle.dumps(lattice))), 'after-caller-edit/pickled/')
+            check_links(ctx.call('deepcopy(lattice)', plain, copy.deepcopy, lattice), 'after-caller-edit/deepcopy/')
+            check_links(ctx.call('fromdict(todict())', plain, lambda: concepts.Context.fromdict(context.todict()).lattice),
+                        'after-caller-edit/fromdict/')
         # Context.neighbors
         n = ref.n
         if n <= 7 and (deep or n <= 4):
@@ -91,6 +104,11 @@ def check_one(case, ctx, deep):
             rawm = [(maps.omask(e.members()), maps.pmask(i.members())) for e, i in raw]
             ctx.check(sorted(rawm) == sorted(gotm), 'context.neighbors(raw)', plain,
                       lambda: f'raw form differs for {list(labels)}: {rawm} vs {gotm}')
+            if deep and isinstance(got, list):
+                lib.wreck(got)   # the list belongs to the caller; the next answer may not depend on it
+                got2 = ctx.call('context.neighbors', plain, context.neighbors, list(labels))
+                ctx.check(sorted((maps.omask(e), maps.pmask(i)) for e, i in got2) == sorted(gotm), 'context.neighbors/after-caller-edit',
+                          plain, lambda: f'neighbors({list(labels)}) after the caller modified the earlier result: {got2!r}')
 
 
 def plan(tier, seed):
